@@ -202,7 +202,7 @@ func Run(c *vf.Check) {
 	vf.Parallel(len(jobs), func(i int) { jobs[i]() })
 	c.Finish("engine E: pair shuffle on Ed25519 and P-256, k=2..4 (thorough 5, and 8/12 with fixed permutations): EVERY permutation x 3 input variants (random, small, duplicate ciphertexts), with the standard base point as generator and (k<=3) with another generator g*B: the honest proof verifies; with the honest proof, every output slot replaced / duplicated / scaled / summed with its neighbour / outputs swapped / output extended or shortened, proof of another instance, proof bytes flipped and truncated, G or H replaced: accepted only if the model (brute force over permutations with known discrete logs) says the claimed output is a re-encryption permutation and nothing else changed. "+
 		"Forged-transcript family F1: a prover that builds a FRESH proof for X'=M*X+beta*G, Y'=M*Y+beta*H with M in {I+E01, I+E10, diag(2,1,..)} (solving M^T sigma = rho + l after the first challenge, D_i = sigma_i*Gamma - W_i, any valid simple-shuffle tail): must be rejected. Simple shuffle: honest vectors verify; y not a gamma-permutation of x (replaced, duplicated, unscaled entry) -> rejected. Biffle: both bits, slot replacement / duplication, proof alterations, and a forging prover: for each of the 8 relations an output violating exactly that relation with a fresh transcript built from a same-shape predicate in which the relation is replaced by a copy of another one (24 forgeries per branch) - all must be rejected. Sequence shuffle NQ=1..3: permutations reached through seeded streams (all k! for k<=3), honest verifies, one sequence's output altered -> rejected. "+
-		"non-trivial = non-identity permutations and forged instances; distinct by (group, k, permutation, variant, attack)",
+		"Strategy F2: an honest proof against an output adjusted afterwards along the kernel of Zsigma (read from the proof) - the Fiat-Shamir transcript does not bind the statement, an open known finding. Strategies F3/F4: fresh transcripts for output0 = input0+input1 whose embedded simple shuffle is an honest one of R = A+lambda*B only / of S = C+lambda*D only. Parameter spellings: every effective (G,H) in {B, g*B} x {B, h*B} with B given as nil or as the base point, on the prover side and on the verifier side (biffle and Shuffle()): accepted iff the effective parameters agree. Sequence shuffle with challenge vectors having a leading 1, all ones, a trailing 1; verified twice; the caller's matrices intact after proving and verifying. non-trivial = non-identity permutations and forged instances; distinct by (group, k, permutation, variant, attack)",
 		[]string{"soundness is only probed by the enumerated output alterations and the F1 forging strategy; absence of a finding is not a soundness proof", "the forger mirrors the transcript layout of the package (if the layout changes the forged proof merely fails to parse)"}, nil)
 }
 
